@@ -78,6 +78,24 @@ theorem accepts_iff (m : MSP F) (S : List ℕ) (hS : ∀ id ∈ S, id ∈ m.hold
   simp only [h1, h2, Bool.false_eq_true, if_false]
   exact solveLeft_isSome_iff _ _
 
+omit [DecidableEq F] in
+theorem not_spans_nil (d : ℕ) (hd : 0 < d) : ¬ SpansL ([] : Mat F) d := by
+  rintro ⟨x, -, hs⟩
+  have := hs 0 hd
+  simp [wsum, colOf] at this
+
+/-- `MSP.accepts` for a set of row owners, programme of positive width -/
+theorem accepts_iff' (m : MSP F) (S : List ℕ) (hS : ∀ id ∈ S, id ∈ m.holders) (hd : 0 < m.cols) :
+    m.accepts S = true ↔ SpansL (m.sub S) m.cols := by
+  by_cases hne : m.rowsOf S = []
+  · have h1 : m.accepts S = false := by
+      simp [MSP.accepts, MSP.reconVector, hne]
+    have h2 : m.sub S = [] := by simp [MSP.sub, hne, Access.pick]
+    rw [h1, h2]
+    simp only [Bool.false_eq_true, false_iff]
+    exact not_spans_nil _ hd
+  · exact accepts_iff m S hS hne
+
 theorem accepts_nil (m : MSP F) : m.accepts [] = false := by
   have : m.rowsOf [] = [] := by simp [MSP.rowsOf]
   simp [MSP.accepts, MSP.reconVector, this]
